@@ -192,10 +192,12 @@ class World:
         if detail:
             v["detail"] = detail
         focus = self.cfg.get("focus")
-        if focus and prop != focus and self.cur is not None and self.cur.get("op") in self.READ_ONLY_OPS:
-            # a sibling property failed on a read-only query: model and real objects are still in
-            # step, so the run goes on and the focus property keeps being judged; the sibling's
-            # own check reports it
+        if focus and prop != focus and (oracle.startswith("network.") or (
+                self.cur is not None and self.cur.get("op") in self.READ_ONLY_OPS)):
+            # a sibling property failed on a read-only query (model and real objects are still in
+            # step) or in the per-step structure invariant of the net world: the run goes on and
+            # the focus property keeps being judged on the real objects; the sibling's own check
+            # reports the sibling's violation
             self.stats["foreign:%s:%s" % (prop, oracle)] += 1
             self.note("foreign property=%s oracle=%s: %s" % (prop, oracle, message))
             return
